@@ -931,7 +931,7 @@ func (e *Enc) rebindRenamed(li *loopInfo, vars map[string]Term) {
 			continue
 		}
 		if e.c != nil {
-			if pk := e.pkgOf(e.c); pk != nil && pk.Scope().Lookup(name) != nil {
+			if pk := e.pkgOf(e.c); pk != nil && (pk.Scope().Lookup(name) != nil || importsPkgNamed(pk, name)) {
 				continue
 			}
 		}
@@ -2279,7 +2279,7 @@ func (w *World) paramAliases(ct *Contract, pkg *types.Package) map[string]string
 		if known[name] || types.Universe.Lookup(name) != nil {
 			continue
 		}
-		if pkg != nil && pkg.Scope().Lookup(name) != nil {
+		if pkg != nil && (pkg.Scope().Lookup(name) != nil || importsPkgNamed(pkg, name)) {
 			continue
 		}
 		if _, ok := w.cs.GhostFields[name]; ok {
@@ -2310,4 +2310,14 @@ func latchIsSimple(b *ssa.BasicBlock) bool {
 		}
 	}
 	return true
+}
+
+// importsPkgNamed: name is the (default) name of a package imported by pkg (reflect.Struct, cbor.X ...).
+func importsPkgNamed(pkg *types.Package, name string) bool {
+	for _, ip := range pkg.Imports() {
+		if ip.Name() == name {
+			return true
+		}
+	}
+	return name == "cbor" || name == "cose" || name == "eat" || name == "json" // import aliases used in /repo
 }
